@@ -680,3 +680,33 @@ M('C14', 'c14-connection-reader-lock-dropped', 'openhtf/plugs/usb/adb_protocol.p
   "      # If someone else has the Lock, just keep checking our queue.\n      if not self._reader_lock.acquire(False):\n        continue\n",
   "      # If someone else has the Lock, just keep checking our queue.\n      self._reader_lock.acquire(False)\n",
   'connection-level reader election removed: several threads read the transport')
+
+# ---------------------------------------------------------------- C12
+M('C12', 'c12-timeout-option-ignored', 'openhtf/core/phase_executor.py',
+  "    if self._phase_desc.options.timeout_s is not None:\n      deadline = time.monotonic() + self._phase_desc.options.timeout_s",
+  "    if self._phase_desc.options.timeout_s:\n      deadline = time.monotonic() + self._phase_desc.options.timeout_s",
+  'timeout_s=0 falls back to the default time-out')
+M('C12', 'c12-deadline-halved', 'openhtf/core/phase_executor.py',
+  "      deadline = time.monotonic() + self._phase_desc.options.timeout_s\n    while",
+  "      deadline = time.monotonic() + self._phase_desc.options.timeout_s / 2.0\n    while",
+  'phases are timed out at half their time-out')
+M('C12', 'c12-kill-without-running-test', 'openhtf/util/threads.py',
+  "    if not self._is_thread_proc_running():\n      self._logger.debug(\"Thread's _thread_proc function is no longer running, \"\n                         'will not kill; letting thread exit gracefully.')\n      return\n",
+  "",
+  'kill() raises in the thread even after its body returned')
+M('C12', 'c12-killed-flag-not-checked', 'openhtf/util/threads.py',
+  "        if self._killed.is_set():\n          raise ThreadTerminationError()\n",
+  "",
+  'a kill before start no longer prevents the body')
+M('C12', 'c12-repeat-on-any-timeout', 'openhtf/core/phase_executor.py',
+  "    if phase_execution_outcome.is_timeout and phase.options.repeat_on_timeout:",
+  "    if phase_execution_outcome.is_timeout:",
+  'timed-out phases are re-invoked without repeat_on_timeout')
+M('C12', 'c12-teardown-skipped-after-timeout', 'openhtf/core/test_executor.py',
+  "    if group.teardown:\n      teardown_ret = self._execute_sequence(",
+  "    if group.teardown and not (self._last_outcome and self._last_outcome.is_timeout):\n      teardown_ret = self._execute_sequence(",
+  'group teardown skipped after a time-out in main')
+M('C12', 'c12-timeout-finalized-as-error', 'openhtf/core/test_state.py',
+  "      self._finalize(test_record.Outcome.TIMEOUT)",
+  "      self._finalize(test_record.Outcome.ERROR)",
+  'a phase time-out gives ERROR instead of TIMEOUT')
